@@ -46,7 +46,9 @@ func raceChild(sc *scenario, n int) {
 type raceReport struct {
 	First  string `json:"first_access"`
 	Second string `json:"second_access"`
-	Kind   string `json:"kind"` // repository | harness
+	Kind   string `json:"kind"`       // repository | harness
+	Map    bool   `json:"map_access"` // one of the accesses is a Go map operation (fatal when concurrent)
+	Text   string `json:"-"`
 }
 
 var frameFile = regexp.MustCompile(`^\s+(/\S+\.go):(\d+)`)
@@ -103,7 +105,12 @@ func parseRaceLog(text string) []raceReport {
 		if len(acc) < 2 {
 			continue
 		}
-		r := raceReport{First: topUserFrame(acc[0][1:]), Second: topUserFrame(acc[1][1:])}
+		r := raceReport{First: topUserFrame(acc[0][1:]), Second: topUserFrame(acc[1][1:]), Text: strings.TrimSpace(block)}
+		for _, a := range acc[:2] {
+			if len(a) > 1 && strings.Contains(a[1], "runtime.map") {
+				r.Map = true
+			}
+		}
 		harness := func(f string) bool { return strings.Contains(f, "/cmd/schedmc/") || f == "?" }
 		if harness(r.First) || harness(r.Second) {
 			r.Kind = "harness"
@@ -166,6 +173,7 @@ func raceParent(prop, tier string, scs []*scenario, runs int) int {
 	wg.Wait()
 	totalRuns, harness := 0, 0
 	repo := map[string]int{}
+	var fatal []mc.Violation
 	for _, r := range results {
 		totalRuns += r.runs
 		for _, rep := range r.reports {
@@ -178,6 +186,22 @@ func raceParent(prop, tier string, scs []*scenario, runs int) int {
 				a, b = b, a
 			}
 			repo[a+"  <->  "+b]++
+			if rep.Map {
+				// the one kind of race that is a verdict by itself: concurrent access to a Go map is a
+				// fatal runtime error ("concurrent map read and map write"), the process dies
+				site := func(f string) string {
+					if i := strings.LastIndex(f, "/"); i >= 0 {
+						f = f[i+1:]
+					}
+					if i := strings.LastIndex(f, ":"); i >= 0 {
+						f = f[:i]
+					}
+					return f
+				}
+				fatal = append(fatal, mc.Violation{Prop: prop, Clause: "concurrent-map-access", Fingerprint: "concurrent-map-access|" + site(a) + "|" + site(b),
+					Detail:  fmt.Sprintf("scenario %s, free-running under the race detector: unsynchronised access to a map from two goroutines (%s <-> %s); concurrent map access aborts the process", r.name, a, b),
+					History: map[string]any{"scenario": r.name, "race_report": rep.Text}})
+			}
 		}
 	}
 	var keys []string
@@ -192,19 +216,23 @@ func raceParent(prop, tier string, scs []*scenario, runs int) int {
 		fmt.Fprintf(os.Stderr, "NOTE race (assumption guard, decides nothing): %s  [%d reports]\n", k, repo[k])
 		list = append(list, map[string]any{"accesses": k, "reports": repo[k]})
 	}
+	rc := 0
+	if mc.Report(fatal) > 0 {
+		rc = 1
+	}
 	// merge into the evidence file written by the exploration
 	path := filepath.Join(mc.OutRoot(), "evidence", prop+".json")
 	b, err := os.ReadFile(path)
 	if err != nil {
-		return 0
+		return rc
 	}
 	var ev map[string]any
 	if json.Unmarshal(b, &ev) != nil {
-		return 0
+		return rc
 	}
 	cov, _ := ev["coverage"].(map[string]any)
 	if cov == nil {
-		return 0
+		return rc
 	}
 	cov["race_guard_pass"] = map[string]any{
 		"what":                         "the same scenario bodies and instrumented code run free (no scheduler, real primitives, timers 200x faster) under the Go race detector; sampling, decides nothing",
@@ -212,8 +240,14 @@ func raceParent(prop, tier string, scs []*scenario, runs int) int {
 		"free_running_executions":      totalRuns,
 		"repository_code_access_pairs": list,
 		"harness_only_reports_ignored": harness,
+		"concurrent_map_accesses":      len(fatal),
+	}
+	if rc != 0 {
+		if n, ok := ev["violations"].(float64); ok {
+			ev["violations"] = int(n) + len(fatal)
+		}
 	}
 	out, _ := json.MarshalIndent(ev, "", " ")
 	os.WriteFile(path, out, 0o644)
-	return 0
+	return rc
 }
